@@ -82,7 +82,7 @@ func TestPageInfoLayout(t *testing.T) {
 			return
 		}
 	}
-	runFlat(t, s, ev.Scale(800, 10000))
+	runFlat(t, s, ev.Scale(2000, 12000))
 	if missing {
 		t.Fatalf("harness: PageInfo field set failed mid-run")
 	}
@@ -97,7 +97,7 @@ func TestPageInfoLayout(t *testing.T) {
 func TestPageInfoDigest(t *testing.T) {
 	const name = "sev/pageinfo-digest"
 	ev.Rule(name, "SnpMeasurement{Digest: d} .Update4K(gpa, page, type) / .ZeroContentUpdate4K(gpa, type) with d, gpa (boundary-biased u64), type (1..6 and arbitrary u8), page (4096 bytes pattern/random); oracle: new digest == SHA-384 of the harness-built 0x70-byte PAGE_INFO (DIGEST_CUR=d, CONTENTS=SHA-384(page) or zero, LENGTH=0x70, PAGE_TYPE, IMI=0, VMPL perms=0, GPA); non-trivial = gpa at a boundary; distinct = (entry, page type, gpa class)")
-	checks(ev.Scale(800, 8000))
+	checks(ev.Scale(2000, 10000))
 	rapid.Check(t, func(t *rapid.T) {
 		d := genBytes(t, 48, "digestCur")
 		gpa, gclass := genUint(t, 64, "gpa")
@@ -325,7 +325,7 @@ func TestVmsaFields(t *testing.T) {
 			probeable = append(probeable, f)
 		}
 	}
-	checks(ev.Scale(1500, 15000))
+	checks(ev.Scale(4000, 20000))
 	rapid.Check(t, func(t *rapid.T) {
 		c, boundary := genVmsa(t)
 		n := 4096
